@@ -971,7 +971,76 @@ func instrumentFieldAccesses(pkg, path string, src []byte) ([]byte, int) {
 			return true
 		})
 	}
-	sort.Slice(edits, func(i, j int) bool { return edits[i].from > edits[j].from })
+	// writes of slice elements: `x[i] = v` as a statement of its own, x a variable and i a
+	// variable or literal, is preceded (on the same line) by verifrt.WrElem(x, i, site), which
+	// records a write of &x[i] when x is a slice and does nothing for a map or an array value.
+	// Elements are what goroutines share when they fill or patch a list they were handed
+	// (a JSON array inside a document that several constructors read).
+	elemWrites := func(list []ast.Stmt) {
+		for _, st := range list {
+			as, ok := st.(*ast.AssignStmt)
+			if !ok || as.Tok == token.DEFINE {
+				continue
+			}
+			for _, l := range as.Lhs {
+				ix, ok := stripParens(l).(*ast.IndexExpr)
+				if !ok {
+					continue
+				}
+				base, ok := ix.X.(*ast.Ident)
+				if !ok || base.Obj == nil || base.Obj.Kind != ast.Var {
+					continue
+				}
+				var idx string
+				switch iv := ix.Index.(type) {
+				case *ast.Ident:
+					idx = iv.Name
+				case *ast.BasicLit:
+					if iv.Kind != token.INT {
+						continue
+					}
+					idx = iv.Value
+				default:
+					continue
+				}
+				at := fset.Position(as.Pos()).Offset
+				site := strconv.Quote(fmt.Sprintf("%s:%d %s[%s]", rel, fset.Position(as.Pos()).Line, base.Name, idx))
+				edits = append(edits, edit{at, at, fmt.Sprintf("verifrt.WrElem(%s, %s, %s); ", base.Name, idx, site)})
+			}
+		}
+	}
+	// reads of slice elements: `for i, v := range x` with named i and v, x a variable, records a
+	// read of x[i] at the head of every iteration (a loop that stops early has not read the rest)
+	ast.Inspect(file, func(n ast.Node) bool {
+		rs, ok := n.(*ast.RangeStmt)
+		if !ok || rs.Value == nil || rs.Body == nil {
+			return true
+		}
+		base, ok := rs.X.(*ast.Ident)
+		key, ok2 := rs.Key.(*ast.Ident)
+		if !ok || !ok2 || key.Name == "_" || base.Obj == nil || base.Obj.Kind != ast.Var {
+			return true
+		}
+		if vid, isIdent := rs.Value.(*ast.Ident); isIdent && vid.Name == "_" {
+			return true
+		}
+		at := fset.Position(rs.Body.Lbrace).Offset + 1
+		site := strconv.Quote(fmt.Sprintf("%s:%d range %s", rel, fset.Position(rs.Pos()).Line, base.Name))
+		edits = append(edits, edit{at, at, fmt.Sprintf(" verifrt.RdElem(%s, %s, %s); ", base.Name, key.Name, site)})
+		return true
+	})
+	ast.Inspect(file, func(n ast.Node) bool {
+		switch v := n.(type) {
+		case *ast.BlockStmt:
+			elemWrites(v.List)
+		case *ast.CaseClause:
+			elemWrites(v.Body)
+		case *ast.CommClause:
+			elemWrites(v.Body)
+		}
+		return true
+	})
+	sort.SliceStable(edits, func(i, j int) bool { return edits[i].from > edits[j].from })
 	out := append([]byte{}, src...)
 	last := len(out) + 1
 	applied := 0
